@@ -304,7 +304,8 @@ def diagnose(E, f, what):
             p = str(E.formula(probe))
             gs = E.formula(p).structure
             ok = same(E, probe, gs) is None
-            back = gs[0][0] if len(gs) == 1 else None
+            # a group probe that comes back spliced was read with count 1
+            back = gs[0][0] if len(gs) == 1 else 1 if (pos == "group" and len(gs) == 2) else None
         except Exception:
             ok = False
         if not ok:
